@@ -13,7 +13,8 @@ try:
     m=json.load(open('/tmp/seedall-$n.json'))
     got=[k for k in '$checks'.split() if m['checks'][k]['exit']==1 and m['checks'][k]['violations']]
     bad=[k for k in '$checks'.split() if m['checks'][k]['exit'] not in (0,1)]
-    print('$n', 'confirmed' if m['confirmed'] else 'NOT-CONFIRMED', ('caught by '+','.join(got)) if got else 'MISSED', ('HARNESS-ERROR in '+','.join(bad)) if bad else '')
+    acc=json.load(open('/verif/seeded/$n/meta.json')).get('accepted_miss')
+    print('$n', 'confirmed' if m['confirmed'] else 'NOT-CONFIRMED', ('caught by '+','.join(got)) if got else ('missed (accepted: see meta.json)' if acc else 'MISSED'), ('HARNESS-ERROR in '+','.join(bad)) if bad else '')
 except Exception as e:
     print('$n', 'ERROR', open('/tmp/seedall-$n.json').read()[-300:])
 "
